@@ -159,7 +159,7 @@ func isAncestor(a, of *TNode) bool {
 	return false
 }
 
-var corruptions = []string{"diff+1", "diff-1", "cumdiff+1", "cumdiff-1", "height+1", "height-1", "ts-before-parent",
+var corruptions = []string{"side-is-parent", "side-is-grandparent", "side-rereference","diff+1", "diff-1", "cumdiff+1", "cumdiff-1", "height+1", "height-1", "ts-before-parent",
 	"ts-future", "version", "bad-pow", "next-delegate", "delegate-id", "anc1", "anc2", "anc2-other",
 	"otherchain-own", "otherchain-dup", "otherchain-ok", "side-dup"}
 
@@ -374,6 +374,12 @@ func (w *World) genHistory(p HistParams) *History {
 		w.scenarioDeepFork(h, deliver)
 	case "bigblock":
 		w.scenarioBigBlock(h, deliver)
+	case "undokinds":
+		w.scenarioUndoKinds(h, deliver)
+	case "shortheavy":
+		w.scenarioShortHeavy(h, deliver)
+	case "corruptsweep":
+		w.scenarioCorruptSweep(h, deliver)
 	}
 	if len(h.Ops) > 0 && h.Ops[len(h.Ops)-1].Dump == nil {
 		h.Ops[len(h.Ops)-1].Dump = w.dump(h.NUT)
@@ -531,4 +537,132 @@ func (w *World) scenarioBigBlock(h *History, deliver func(*TNode) *Op) {
 	w.admit(nb)
 	deliver(nb)
 	h.Stats["scenario-bigblock"]++
+}
+
+
+// scenarioUndoKinds: for each transaction kind in turn, a block X carrying one transaction of that kind is connected and
+// then disconnected again by a competing two-block branch from X's parent (undo of every kind, on a live stake state).
+func (w *World) scenarioUndoKinds(h *History, deliver func(*TNode) *Op) {
+	rng := w.rng
+	for round := 0; round < 7; round++ {
+		parent := w.nodeOfTop(h.NUT)
+		if parent == nil || parent.Snap == nil {
+			return
+		}
+		kind := []int{4, 5, 4, 3, 2, 5, 1}[round]
+		var txs []*transaction.Transaction
+		var meta []TxMeta
+		start := rng.Intn(len(w.wallets))
+		for k := 0; k < len(w.wallets); k++ {
+			w.forceKind, w.forceWallet = kind, (start+k)%len(w.wallets)
+			t, m, _ := w.genTxs(parent, 1, 0)
+			w.forceKind = 0
+			if len(t) == 1 && int(t[0].Version) == kind {
+				txs, meta = t, m
+				break
+			}
+		}
+		if len(txs) == 1 {
+			h.Stats[fmt.Sprintf("undo-kind-%d", kind)]++
+		}
+		x := w.build(parent, BlockSpec{TsDelta: 14000 + rng.UpTo(2000), Recipient: w.wallets[rng.Intn(len(w.wallets))].Addr, Txs: txs, TxMeta: meta, Sign: 1})
+		w.admit(x)
+		deliver(x)
+		y1 := w.build(parent, BlockSpec{TsDelta: 15000, Recipient: w.wallets[rng.Intn(len(w.wallets))].Addr, Sign: 1})
+		w.admit(y1)
+		deliver(y1)
+		if !y1.Valid {
+			continue
+		}
+		ytx, ymeta, _ := w.genTxs(y1, 2, 0)
+		y2 := w.build(y1, BlockSpec{TsDelta: 15000, Recipient: w.wallets[rng.Intn(len(w.wallets))].Addr, Txs: ytx, TxMeta: ymeta, Sign: 1})
+		w.admit(y2)
+		deliver(y2)
+	}
+	h.Stats["scenario-undokinds"]++
+}
+
+// scenarioShortHeavy: a long branch of slowly spaced blocks and a short branch of quickly spaced blocks (rising
+// difficulty) from the same parent; the node follows the long one, reorganises to the heavier SHORTER one, and then
+// back to the long one once that has been extended.
+func (w *World) scenarioShortHeavy(h *History, deliver func(*TNode) *Op) {
+	base := w.nodeOfTop(h.NUT)
+	if base == nil || base.Snap == nil {
+		return
+	}
+	grow := func(from *TNode, n int, delta uint64) []*TNode {
+		var out []*TNode
+		cur := from
+		for i := 0; i < n; i++ {
+			nb := w.build(cur, BlockSpec{TsDelta: delta, Recipient: w.wallets[i%len(w.wallets)].Addr})
+			w.admit(nb)
+			if !nb.Valid {
+				break
+			}
+			out = append(out, nb)
+			cur = nb
+		}
+		return out
+	}
+	long := grow(base, 9, 15000)
+	short := grow(base, 5, 100)
+	if len(long) < 9 || len(short) < 5 {
+		return
+	}
+	sEnd := short[len(short)-1]
+	// deliver the long branch while it is lighter than the short one's end but already higher
+	k := 0
+	for k < len(long) && long[k].Block.CumulativeDiff.Cmp(sEnd.Block.CumulativeDiff) < 0 {
+		deliver(long[k])
+		k++
+	}
+	for _, n := range short {
+		deliver(n)
+	}
+	for ; k < len(long); k++ {
+		deliver(long[k])
+	}
+	if k > len(short) {
+		h.Stats["scenario-shortheavy"]++
+	}
+}
+
+
+// scenarioCorruptSweep: every single-rule corruption of an otherwise valid block, once each, on a live chain state
+// (a fork with candidate side blocks is created first so that the side-block corruptions have material).
+func (w *World) scenarioCorruptSweep(h *History, deliver func(*TNode) *Op) {
+	rng := w.rng
+	top := w.nodeOfTop(h.NUT)
+	if top == nil || top.Snap == nil || top.Parent == nil {
+		return
+	}
+	// a sibling of the tip and a child referencing it as side block
+	sib := w.build(top.Parent, BlockSpec{TsDelta: 15000, Recipient: w.wallets[0].Addr, Sign: 1})
+	w.admit(sib)
+	deliver(sib)
+	withSide := w.build(top, BlockSpec{TsDelta: 15000, Recipient: w.wallets[1].Addr, Sign: 1, Sides: []*TNode{sib}})
+	w.admit(withSide)
+	deliver(withSide)
+	for _, c := range corruptions {
+		parent := w.nodeOfTop(h.NUT)
+		if parent == nil || parent.Snap == nil {
+			return
+		}
+		txs, meta, _ := w.genTxs(parent, 2, 0)
+		n := w.build(parent, BlockSpec{TsDelta: 12000 + rng.UpTo(6000), Recipient: w.wallets[rng.Intn(len(w.wallets))].Addr,
+			Txs: txs, TxMeta: meta, Sign: 1, Corrupt: c})
+		if len(n.Block.SideBlocks) > config.MAX_SIDE_BLOCKS {
+			continue
+		}
+		w.admit(n)
+		deliver(n)
+		h.Stats["corrupt:"+c]++
+		if rng.Intn(3) == 0 {
+			// keep the chain moving so that later corruptions meet other states
+			ok := w.build(parent, BlockSpec{TsDelta: 15000, Recipient: w.wallets[rng.Intn(len(w.wallets))].Addr, Sign: 1})
+			w.admit(ok)
+			deliver(ok)
+		}
+	}
+	h.Stats["scenario-corruptsweep"]++
 }
